@@ -5,7 +5,7 @@ namespace TaskModel.Vars
 def names (defs : List (Name × VarDef)) : List Name := defs.map Prod.fst
 
 @[simp] theorem get_set_self (e : Env) (n : Name) (v : Str) : get (set e n v) n = v := by
-  simp [get, set, List.lookup]
+  simp [get, set]
 
 theorem get_set_other (e : Env) (n m : Name) (v : Str) (h : m ≠ n) : get (set e n v) m = get e m := by
   simp only [get, set, List.lookup]
@@ -13,8 +13,8 @@ theorem get_set_other (e : Env) (n m : Name) (v : Str) (h : m ≠ n) : get (set 
   simp [this]
 
 /-- a block does not touch variables it does not define -/
-theorem evalBlock_frame (w : World) (dir : Str) (defs : List (Name × VarDef)) (e : Env) (c : Cache)
-    (m : Name) (h : m ∉ names defs) : get (evalBlock w dir defs e c).1 m = get e m := by
+theorem evalBlock_frame (w : World) (dirf : Env → Str) (defs : List (Name × VarDef)) (e : Env) (c : Cache)
+    (m : Name) (h : m ∉ names defs) : get (evalBlock w dirf defs e c).1 m = get e m := by
   induction defs generalizing e c with
   | nil => rfl
   | cons d ds ih =>
@@ -24,45 +24,47 @@ theorem evalBlock_frame (w : World) (dir : Str) (defs : List (Name × VarDef)) (
     rw [ih _ _ (by simpa [names] using h.2)]
     exact get_set_other e n m _ h.1
 
-theorem evalBlock_append (w : World) (dir : Str) (a b : List (Name × VarDef)) (e : Env) (c : Cache) :
-    evalBlock w dir (a ++ b) e c =
-      evalBlock w dir b (evalBlock w dir a e c).1 (evalBlock w dir a e c).2 := by
+theorem evalBlock_append (w : World) (dirf : Env → Str) (a b : List (Name × VarDef)) (e : Env) (c : Cache) :
+    evalBlock w dirf (a ++ b) e c =
+      evalBlock w dirf b (evalBlock w dirf a e c).1 (evalBlock w dirf a e c).2 := by
   induction a generalizing e c with
   | nil => rfl
   | cons d ds ih => obtain ⟨n, d⟩ := d; simp only [List.cons_append, evalBlock]; exact ih _ _
 
-/-- the value a block leaves for its last definition of `m` -/
-theorem evalBlock_last (w : World) (dir : Str) (pre post : List (Name × VarDef)) (m : Name) (d : VarDef)
+/-- the value a block leaves for its last definition of `m`: that definition evaluated over what the
+definitions before it resolved, in the directory that holds at that moment -/
+theorem evalBlock_last (w : World) (dirf : Env → Str) (pre post : List (Name × VarDef)) (m : Name) (d : VarDef)
     (e : Env) (c : Cache) (h : m ∉ names post) :
-    get (evalBlock w dir (pre ++ (m, d) :: post) e c).1 m =
-      (evalDef w dir (evalBlock w dir pre e c).1 (evalBlock w dir pre e c).2 d).1 := by
+    get (evalBlock w dirf (pre ++ (m, d) :: post) e c).1 m =
+      (evalDef w (dirf (evalBlock w dirf pre e c).1) (evalBlock w dirf pre e c).1 (evalBlock w dirf pre e c).2 d).1 := by
   rw [evalBlock_append]
   simp only [evalBlock]
   rw [evalBlock_frame _ _ _ _ _ _ h]
   simp
 
-theorem stepLayer_frame (w : World) (cx : Ctx) (i : Nat) (s : St) (l : Layer) (m : Name)
-    (h : m ∉ names l.defs) : get (stepLayer w cx i s l).env m = get s.env m := by
+theorem stepLayer_frame (w : World) (cx : Ctx) (s : St) (l : Layer) (m : Name)
+    (h : m ∉ names l.defs) : get (stepLayer w cx s l).env m = get s.env m := by
   simp only [stepLayer]
   exact evalBlock_frame _ _ _ _ _ _ h
 
-theorem runLayers_frame (w : World) (cx : Ctx) (ls : List Layer) (i : Nat) (s : St) (m : Name)
-    (h : ∀ l ∈ ls, m ∉ names l.defs) : get (runLayers w cx ls i s).env m = get s.env m := by
-  induction ls generalizing i s with
+theorem runLayers_frame (w : World) (cx : Ctx) (ls : List Layer) (s : St) (m : Name)
+    (h : ∀ l ∈ ls, m ∉ names l.defs) : get (runLayers w cx ls s).env m = get s.env m := by
+  induction ls generalizing s with
   | nil => rfl
   | cons l ls ih =>
     simp only [runLayers]
-    rw [ih _ _ (fun l' hl' => h l' (List.mem_cons_of_mem _ hl'))]
-    exact stepLayer_frame _ _ _ _ _ _ (h l List.mem_cons_self)
+    rw [ih _ (fun l' hl' => h l' (List.mem_cons_of_mem _ hl'))]
+    exact stepLayer_frame _ _ _ _ _ (h l List.mem_cons_self)
 
-theorem runLayers_append (w : World) (cx : Ctx) (a b : List Layer) (i : Nat) (s : St) :
-    runLayers w cx (a ++ b) i s = runLayers w cx b (i + a.length) (runLayers w cx a i s) := by
-  induction a generalizing i s with
+theorem runLayers_append (w : World) (cx : Ctx) (a b : List Layer) (s : St) :
+    runLayers w cx (a ++ b) s = runLayers w cx b (runLayers w cx a s) := by
+  induction a generalizing s with
   | nil => simp [runLayers]
   | cons l ls ih =>
-    simp only [List.cons_append, runLayers, List.length_cons]
+    simp only [List.cons_append, runLayers]
     rw [ih]
-    congr 1
-    omega
+
+theorem siteDirf_root (cx : Ctx) (s : Site) (h : s.inTaskDir = false) : siteDirf cx s = fun _ => cx.rootDir := by
+  funext e; simp [siteDirf, h]
 
 end TaskModel.Vars
